@@ -53,6 +53,11 @@ CHECKS = {
    "~900 (quick) / ~18000 (thorough) programs: deterministic manual-refresh sequences of up to 120 lazy/immediate priority updates on 2-40 bars with equal, distinct, negative and extreme values; auto-refresh programs with 2-4 clients changing priorities concurrently with rendering; pop-mode programs (finished bars must rise in finishing order, taken from the flush hook). Every frame not exempted by a lazy change must be sorted under some admissible assignment.",
    "successors are checked by the rank rule only; same-cycle finishers' mutual order follows the flush order",
    "DESIGN.md 4/C06"),
+ "C10": ("exploration",
+   "runtime monitors: (a) porcupine linearizability check of recorded invoke/return histories against the Appendix-B machine (non-deterministic after the terminal transition), partitioned per bar; (b) the Go race detector over scenario workers built with -race (harness clock, history and hook callback off)",
+   "(a) ~600 (quick) / ~12000 (thorough) histories of 2-6 clients x 4-12 operations on 1-3 shared bars with render cycles, completion and bar-goroutine exit landing between and inside operations; every per-bar history must have a sequential explanation by the documented rules, the final quiescent reads included. (b) ~400 (quick) / ~10000 (thorough) scenarios under -race: getters, Wait, SetPriority, traverse and proxies hammered on bars that are rendering, shutting down and already shut down while later frames are drawn, concurrent Add/Write, n>q, and the render-error path; any report with a library frame is a violation (deduplicated by the pair of first library functions).",
+   "post-terminal updates are restricted to non-decreasing ones; porcupine timeout (60 s per bar) = inconclusive; race reports without a library frame are harness bugs and fail the check as such",
+   "DESIGN.md 4/C10, Appendix B"),
  "C11": ("exploration",
    "runtime monitor: per-bar flag monitor fed by every client read, every frame's Statistics (marker rows) and the post-Wait getters, over histories that cross the terminal transition",
    "~1200 (quick) / ~24000 (thorough) programs with 1-4 clients issuing Abort at current==total, Abort on total<=0 bars, non-decreasing updates after Abort/completion, EnableTriggerComplete, SetTotal and getters, with cancel/Shutdown placed by trigger at bar.trigger / flush.bar / bar.exit; no observation may carry both flags, no flag may flip back (later = invoked after the earlier returned), after Wait exactly one holds, cancellation-only endings are aborted.",
